@@ -369,6 +369,46 @@ def witness_py(types, workdir: pathlib.Path, direction: str, n_cases: int = 60):
     return bad, len(jobs), None
 
 
+def roundtrip_py(types, workdir: pathlib.Path, n_cases: int = 100):
+    """C03, Python leg (bounded): decode(encode(x)) is x after its cast-mode adjustment and encodes to the same bytes --
+    the adjustment is read off the reference decoder applied to the bytes Python itself produced (oracle-free for the
+    byte-identity clause, reference-based for the decoded value)."""
+    lang = py_lang()
+    rng = random.Random(3)
+    jobs, meta = [], []
+    for t in types:
+        m, c = mod_cls(lang, t)
+        for i in range(n_cases):
+            v = gen_composite(rng, t, "zero" if i == 0 else "ones" if i == 1 else "rand")
+            jobs.append({"job": "roundtrip", "mod": m, "cls": c, "plan": value_plan(lang, t, v), "tp": type_plan(lang, t)})
+            meta.append((t, v))
+    res = run_jobs(workdir, jobs)
+    if "__stderr__" in res:
+        return [], 0, f"runner stopped early: {res['__stderr__']}"
+    bad, seen = [], set()
+    for i, (t, v) in enumerate(meta):
+        r = res[i]
+        if str(t) in seen:
+            continue
+        if "exc" in r:
+            w = {"input": {"object": v}, "why": f"raises {r['exc']}: {r['msg']}"}
+        elif r.get("none"):
+            w = {"input": {"object": v, "bytes": r["b1"]}, "why": "the generated deserializer rejects the bytes the generated serializer produced"}
+        elif r["b1"] != r["b2"]:
+            w = {"input": {"object": v}, "why": f"serialize(deserialize(serialize(x))) = {r['b2']} differs from serialize(x) = {r['b1']}"}
+        else:
+            b1 = bytes.fromhex(r["b1"])
+            erc, ev, _ = pp_ref.deserialize_ref(t, b1, len(b1))
+            want = _normflat([list(y) if isinstance(y, tuple) else y for y in pp_ref.flat(t, ev)]) if erc == 0 else None
+            if want is None or _normflat(r["flat"]) != want:
+                w = {"input": {"object": v, "bytes": r["b1"]}, "why": f"deserialize(serialize(x)) has fields {r['flat']}; the cast-mode adjusted value is {want}"}
+            else:
+                continue
+        seen.add(str(t))
+        bad.append((t, w))
+    return bad, len(jobs), None
+
+
 # ---------------------------------------------------------------------------------------------------------------------
 # C18: data-object contract of the generated classes (bounded native stand-in)
 # ---------------------------------------------------------------------------------------------------------------------
